@@ -19,6 +19,7 @@ import MsVerif.Lemmas.TapTreeIter
 import MsVerif.Lemmas.TapTreeBuilder
 import MsVerif.Lemmas.TapTreeCombine
 import MsVerif.Lemmas.TapTreeDisplay
+import MsVerif.Lemmas.TapTreeBip341
 
 namespace MsVerif.C15
 open MsVerif MsVerif.Spec MsVerif.Spec.Tree MsVerif.Tap
@@ -157,7 +158,52 @@ theorem spec_paths_verify (H : HashAlg α ν) (hc : H.Comm) (t : Tree α) :
     ∀ p ∈ siblingPaths H t, verifyPath H (H.leafHash p.1) p.2 = root H t :=
   siblingPaths_verify H hc t
 
+/-! ## Real hashes: the byte-level BIP341 instance (Spec/Bip341.lean)
+
+Nothing above assumes that different leaves carry different scripts: `Tree α` may repeat a leaf
+any number of times, at equal or different depths, and every statement (root, sibling paths,
+order, depths) is about leaf POSITIONS.  The theorems below instantiate the abstract hashes
+with tagged SHA-256. -/
+
+/-- BIP341's TapBranch hash sorts its two children, hence is commutative: the `H.Comm`
+hypothesis of `controlBlock_verifies` holds for the real hash functions -/
+theorem bip341_branch_comm : Bip341.alg.Comm := Bip341.alg_comm
+
+/-- for every tree of scripts (repetitions allowed) of height ≤ 128: every yielded control-block
+path, put into ANY control block with the tapscript leaf version, makes BIP341's script-path
+computation (`committedRoot`: TapLeaf hash of the script folded through the path with sorted
+TapBranch hashes) arrive at the Merkle root that `merkle_root()` reports and that the output
+key is tweaked with (`outputKey_commits`) -/
+theorem controlBlock_verifies_bip341 (t : Tree Hash.Bytes) (ht : height t ≤ 128) :
+    ∃ items, spendLeaves Bip341.alg (depths t) = some items ∧
+      (nodesFromTapTree Bip341.alg (depths t)).bind merkleRootOf = some (root Bip341.alg t) ∧
+      ∀ it ∈ items, ∀ (odd : Bool) (ik : Hash.Bytes),
+        Bip341.committedRoot ⟨Bip341.tapscriptVersion, odd, ik, it.merkleBranch⟩ it.leaf
+          = root Bip341.alg t ∧ it.merkleBranch.length ≤ maxDepth := by
+  obtain ⟨items, h1, h2⟩ := controlBlock_verifies Bip341.alg bip341_branch_comm t ht
+  exact ⟨items, h1, nodes_root Bip341.alg t, fun it hit _ _ => h2 it hit⟩
+
+/-- the one-pass (root, sibling paths) function the driver's `trcommit` judge evaluates is the
+specification's `root` and `siblingPaths` -/
+theorem judge_rootAndPaths (H : HashAlg α ν) (t : Tree α) :
+    rootAndPaths H t = (root H t, siblingPaths H t) := rootAndPaths_eq H t
+
 /-! ## Non-vacuity: concrete instances -/
+
+/-- a tree with REPEATED leaves: `{{0,1},{1,{0,0}}}` -/
+def exDup : Tree Nat :=
+  .node (.node (.leaf 0) (.leaf 1)) (.node (.leaf 1) (.node (.leaf 0) (.leaf 0)))
+example : depths exDup = [(2, 0), (2, 1), (2, 1), (3, 0), (3, 0)] := by decide
+example : (spendLeaves termAlg (depths exDup)).map (fun l => l.map (fun it => (it.depth, it.leaf))) =
+    some (depths exDup) := leaves_order_depths termAlg exDup (by decide)
+example : (spendLeaves termAlg (depths exDup)).map (fun l => l.map (·.merkleBranch)) =
+    some [[.leaf 1, .branch (.leaf 1) (.branch (.leaf 0) (.leaf 0))],
+          [.leaf 0, .branch (.leaf 1) (.branch (.leaf 0) (.leaf 0))],
+          [.branch (.leaf 0) (.leaf 0), .branch (.leaf 0) (.leaf 1)],
+          [.leaf 0, .leaf 1, .branch (.leaf 0) (.leaf 1)],
+          [.leaf 0, .leaf 1, .branch (.leaf 0) (.leaf 1)]] := by decide
+example : height (Tree.node (Tree.leaf [0x00]) (Tree.leaf [0x00]) : Tree Hash.Bytes) ≤ 128 := by decide
+
 
 /-- `{{0,1},{2,{3,4}}}` -/
 def exTree : Tree Nat :=
